@@ -3,6 +3,7 @@ CONSTANTS
   NSlots = 2
   MaxLen = 5
   WithMove = FALSE
+  Regrow = FALSE
   CloneDeep = FALSE
 INIT Init
 NEXT Next
